@@ -1,5 +1,6 @@
 """C15 - event references stay valid and unchanged while the store lives."""
 import random
+import re
 
 import common as C
 from dbengine import DbEngine
@@ -31,6 +32,13 @@ class Engine(DbEngine):
                     op[1]["kind"] = 1
             threads = sub.choice([1, 1, 1, 2, 4])
             out.append(("refs-t%d" % threads, "refs %s %s %s" % (C.tl(C.tb(x) for x in g.names), C.tn(threads), " ".join("; " + g.render_op(op) for op in g.ops))))
+        # controlled schedules over the growth steps of two writers (one of them storing an event that is not indexed) and a reader:
+        # every event stored during the run is re-read afterwards by the offset its store returned
+        import eng_c14
+        e14 = eng_c14.Engine()
+        for i in range(150 if tier == "quick" else 3000):
+            (gcls, line), _meta = e14.make_growth_case(rng, probe=True)
+            out.append(("refs-growth-race", line))
         return out
 
     def skip_model(self, gcls):
@@ -42,6 +50,15 @@ class Engine(DbEngine):
     def judge(self, gcls, line, model_out, impl_outs):
         first = None
         for prof, o in impl_outs.items():
+            if gcls == "refs-growth-race" or line.startswith("conc "):
+                if not o.startswith("conc sched="):
+                    return Verdict(oracle_ok=False, cls="reference-unreadable", detail="[%s] the process died while events stored earlier were re-read: %s" % (prof, o[:80]), outcome="died")
+                rc = re.search(r" refcheck=(\d+),(\d+) ", o)
+                if rc and int(rc.group(2)) > 0:
+                    return Verdict(oracle_ok=False, cls="referenced-bytes-changed",
+                                   detail="[%s] %s of %s events stored while two writers grew the file no longer read back as the bytes submitted" % (prof, rc.group(2), rc.group(1)), outcome="changed")
+                first = first or "race-stable"
+                continue
             if not o.startswith("refs "):
                 return Verdict(oracle_ok=False, cls="refs-run-failed", detail="[%s] %s" % (prof, o[:100]), outcome="failed")
             i = C.kv(o)
